@@ -83,8 +83,9 @@ type gen struct {
 	// declarations are spread over several files of the package (types.go + types_<k>.go): the order in which the
 	// parser registers files differs from load to load, so nothing may be ordered by token.Pos across files
 	// (seeded change C04-m: dependent types generated "in declaration order" by Obj().Pos())
-	extra   map[string]*strings.Builder
-	holders int
+	extra     map[string]*strings.Builder
+	holders   int
+	blockTags int
 }
 
 func (g *gen) name(p string) string {
@@ -101,6 +102,11 @@ func (g *gen) tagLine(t *tdecl, ifaces bool) string {
 	if ifaces {
 		s += "// +gengo:deepcopy:interfaces=" + mod + "/rt.Object\n"
 		t.ifaces = true
+	}
+	if s != "" && g.r.Intn(6) == 0 {
+		// the same tags in a multi-line block comment (seeded change C17-n: block docs filed under the wrong line)
+		s = "/*\n" + strings.ReplaceAll(s, "// ", "") + "*/\n"
+		g.blockTags++
 	}
 	return s
 }
@@ -610,6 +616,7 @@ func (p *prop) runBatch(c core.Case, w *core.Worker, res *core.Result, r *rand.R
 			res.Inc("extra_source_files_per_package")
 		}
 		res.Count("holders_sorting_before_their_dependencies", int64(g.holders))
+		res.Count("declarations_tagged_in_a_block_comment", int64(g.blockTags))
 		entries = append(entries, "./"+name)
 	}
 	gens := []specgen.GenSpec{{Name: "deepcopy", Real: true}}
